@@ -172,7 +172,7 @@ def process(chk, tally, scens, tag):
 def run_check(tier):
     chk = Check("C18", tier)
     quick = tier == "quick"
-    consts = {"MaxPrior": 3 if quick else 4, "MaxDoc": 2 if quick else 4, "CheckDevs": "{}"}
+    consts = {"MaxPrior": 3 if quick else 4, "MaxDoc": 2 if quick else 4, "MaxDocNoEstimate": 4 if quick else 5, "CheckDevs": "{}"}
     shards = 12 if quick else 36
     chk.cov["rule"] = ("case = (target C++ type, placement root/member, MapLoadMode, estimate behaviour zero/exact/larger, policy, "
                        "prior content, document) executed on one archive: document saved with the archive, loaded into the "
@@ -183,7 +183,9 @@ def run_check(tier):
         "as documented in generic_map.h), M = SerializeContainer and its variants with origin-tagged leaves",
         "TLC checks in every state (deviations off): RefinesA, PopulatedEqualsFresh, NoStaleSurvives, NothingLoadedIsLost, "
         "OnlyExistNeverAddsAKey, UpdateNeverRemovesAKey, MapLawsOfA; and refutes RefinesA with each named deviation switched on",
-        "bounds: prior size 0..%d, document size 0..%d (fixed-size targets: 0..n+1), estimate in {zero, exact, larger}" % (consts["MaxPrior"], consts["MaxDoc"]),
+        "bounds: prior size 0..%d, document size 0..%d (fixed-size targets: 0..n+1; sequences whose array scope reports no size - CSV "
+        "natively, the others forced - up to %d, plain items beyond %d), estimate in {zero, exact, larger}" % (
+            consts["MaxPrior"], consts["MaxDoc"], consts["MaxDocNoEstimate"], consts["MaxDoc"]),
         "null / policy-skipped items are generated where the container semantics gives them a defined value (not for "
         "vector<bool>, bitset, integer sets: the code reads an unset temporary there)",
         "estimates other than the archive's own are realised by a forwarding array scope in the harness (GetEstimatedSize only)",
